@@ -34,7 +34,7 @@ use revm::interpreter::{
 };
 use revm::primitives::{
     eof::{EofBody, TypesSection},
-    keccak256, spec_to_generic, AccountInfo, Address, Bytecode, Bytes, Env, ExecutionResult, Log, SpecId, TxKind, B256,
+    spec_to_generic, AccountInfo, Address, Bytecode, Bytes, Env, ExecutionResult, Log, SpecId, TxKind, B256,
     KECCAK_EMPTY, U256,
 };
 use revm::{inspector_handle_register, Database, Evm, EvmContext, Inspector};
@@ -843,10 +843,7 @@ pub fn exec_tx(t: &[&str]) -> String {
     let entry = entry.to_string();
     let schemes: Vec<String> = schemes.iter().map(|s| s.to_string()).collect();
     guarded(move || {
-        let mut db = InMemoryDB::default();
-        db.insert_account_info(a_caller(), AccountInfo { balance: U256::from(1u64 << 60), ..Default::default() });
-        db.insert_account_info(a_eoa(), AccountInfo { balance: U256::from(5), ..Default::default() });
-        let mut universe: BTreeSet<Address> = [a_caller(), a_entry(), a_eoa(), a_void(), Address::with_last_byte(4)].into();
+        let mut codes = vec![];
         for i in 0..=k {
             let addr = if i == 0 { a_entry() } else { a_level(i) };
             let next = if i == 0 {
@@ -858,46 +855,286 @@ pub fn exec_tx(t: &[&str]) -> String {
             };
             let attempt = if i == lvl && i > 0 { Some(op.as_str()) } else { None };
             let code = level_code(&prefixes[i], attempt, next);
-            db.insert_account_info(
-                addr,
-                AccountInfo {
-                    balance: U256::from(1000),
-                    nonce: 1,
-                    code_hash: keccak256(&code),
-                    code: Some(Bytecode::new_raw(Bytes::from(code))),
-                },
-            );
-            db.insert_account_storage(addr, U256::from(2), U256::from(7)).unwrap();
-            db.insert_account_storage(addr, U256::from(3), U256::from(9)).unwrap();
-            universe.insert(addr);
+            codes.push((addr, Bytecode::new_raw(Bytes::from(code))));
         }
-        let snap = Snap { universe, slots: (0u64..4).map(U256::from).collect(), ..Default::default() };
-        let mut evm = Evm::builder()
-            .with_db(db)
-            .with_external_context(snap)
-            .with_spec_id(spec)
-            .append_handler_register(inspector_handle_register)
-            .modify_tx_env(|tx| {
-                tx.caller = a_caller();
-                tx.transact_to = TxKind::Call(a_entry());
-                tx.gas_limit = TX_GAS;
-            })
-            .build();
-        let rs = match evm.transact() {
-            Ok(rs) => rs,
-            Err(e) => return format!("evm-error {:?}", e).replace(' ', "_"),
-        };
-        let out = match &rs.result {
-            ExecutionResult::Success { output, .. } => {
-                let d = output.data();
-                if d.len() == 32 { hx(U256::from_be_slice(d)) } else { format!("len{}", d.len()) }
-            }
-            ExecutionResult::Revert { .. } => "revert".into(),
-            ExecutionResult::Halt { reason, .. } => format!("halt:{:?}", reason),
-        };
-        let s = &evm.context.external;
-        format!("out={} open={} fr={}", out, s.open.len(), s.frames.join(","))
+        run_world(spec, codes)
     })
+}
+
+/// the common part of `tx` and `etx`: database (caller, an EOA with 5 wei, the level contracts with balance 1000,
+/// nonce 1, slots 2 -> 7 and 3 -> 9), the snapshotting inspector, one call transaction to the entry contract
+fn run_world(spec: SpecId, codes: Vec<(Address, Bytecode)>) -> String {
+    let mut db = InMemoryDB::default();
+    db.insert_account_info(a_caller(), AccountInfo { balance: U256::from(1u64 << 60), ..Default::default() });
+    db.insert_account_info(a_eoa(), AccountInfo { balance: U256::from(5), ..Default::default() });
+    let mut universe: BTreeSet<Address> = [a_caller(), a_entry(), a_eoa(), a_void(), Address::with_last_byte(4)].into();
+    for (addr, code) in codes {
+        db.insert_account_info(
+            addr,
+            AccountInfo { balance: U256::from(1000), nonce: 1, code_hash: code.hash_slow(), code: Some(code) },
+        );
+        db.insert_account_storage(addr, U256::from(2), U256::from(7)).unwrap();
+        db.insert_account_storage(addr, U256::from(3), U256::from(9)).unwrap();
+        universe.insert(addr);
+    }
+    let snap = Snap { universe, slots: (0u64..4).map(U256::from).collect(), ..Default::default() };
+    let mut evm = Evm::builder()
+        .with_db(db)
+        .with_external_context(snap)
+        .with_spec_id(spec)
+        .append_handler_register(inspector_handle_register)
+        .modify_tx_env(|tx| {
+            tx.caller = a_caller();
+            tx.transact_to = TxKind::Call(a_entry());
+            tx.gas_limit = TX_GAS;
+        })
+        .build();
+    let rs = match evm.transact() {
+        Ok(rs) => rs,
+        Err(e) => return format!("evm-error {:?}", e).replace(' ', "_"),
+    };
+    let out = match &rs.result {
+        ExecutionResult::Success { output, .. } => {
+            let d = output.data();
+            if d.len() == 32 { hx(U256::from_be_slice(d)) } else { format!("len{}", d.len()) }
+        }
+        ExecutionResult::Revert { .. } => "revert".into(),
+        ExecutionResult::Halt { reason, .. } => format!("halt:{:?}", reason),
+    };
+    let s = &evm.context.external;
+    format!("out={} open={} fr={}", out, s.open.len(), s.frames.join(","))
+}
+
+// ------------------------------------------------------------------------------------------------ etx stream (EOF)
+
+pub const XSCHEMES: [&str; 3] = ["xcall", "xdelegate", "xstatic"];
+pub const XOPS: [&str; 16] = [
+    "none", "sstore", "sstoresame", "tstore", "log0", "log1", "log2", "log3", "log4", "eofcreate", "xcallvalue",
+    "sload", "tload", "balance", "xcall0", "xcallpre",
+];
+
+/// init container of the EOFCREATE attempt: `PUSH0 PUSH0 RETURNCONTRACT 0`, deploying the one-STOP container
+fn init_container() -> Bytes {
+    EofBody {
+        types_section: vec![TypesSection { inputs: 0, outputs: 0x80, max_stack_size: 2 }],
+        code_section: vec![Bytes::from(vec![0x5f, 0x5f, 0xee, 0x00, 0x00, 0x00])],
+        container_section: vec![tiny_eof()],
+        data_section: Bytes::new(),
+        is_data_filled: true,
+    }
+    .into_eof()
+    .raw
+}
+
+/// an (unvalidated, never validated at call time) EOF account code with one code section
+fn eof_account(mut code: Vec<u8>) -> Bytecode {
+    code.extend([0u8; 8]);
+    let body = EofBody {
+        types_section: vec![TypesSection { inputs: 0, outputs: 0x80, max_stack_size: 16 }],
+        code_section: vec![Bytes::from(code)],
+        container_section: vec![init_container()],
+        data_section: Bytes::new(),
+        is_data_filled: true,
+    };
+    Bytecode::Eof(Arc::new(body.into_eof()))
+}
+
+/// EXT*CALL of `to`; leaves the status (0 ok, 1 revert, 2 failure) on the stack
+fn emit_xcall(c: &mut Vec<u8>, scheme: &str, to: u8) {
+    match scheme {
+        "xcall" => push1(c, 0),
+        "xcallvalue" => push1(c, 1),
+        _ => {}
+    }
+    push1(c, 0);
+    push1(c, 0);
+    push1(c, to);
+    c.push(match scheme {
+        "xcall" | "xcallvalue" => 0xf8,
+        "xdelegate" => 0xf9,
+        _ => 0xfb,
+    });
+}
+
+fn emit_xattempt(c: &mut Vec<u8>, op: &str) {
+    match op {
+        "eofcreate" => {
+            push1(c, 0);
+            push1(c, 0);
+            push1(c, 5);
+            push1(c, 0);
+            c.extend([0xec, 0x00, 0x50]);
+        }
+        "xcallvalue" => {
+            emit_xcall(c, "xcallvalue", 0xB0);
+            c.push(0x50);
+        }
+        "xcall0" => {
+            emit_xcall(c, "xcall", 0xB1);
+            c.push(0x50);
+        }
+        "xcallpre" => {
+            emit_xcall(c, "xcall", 0x04);
+            c.push(0x50);
+        }
+        // SSTORE / TSTORE / LOG / SLOAD / TLOAD / BALANCE: same bytes as in legacy code
+        _ => emit_attempt(c, op),
+    }
+}
+
+fn xlevel_code(prefix: &[u8], attempt: Option<&str>, next: Option<(&str, u8)>) -> Vec<u8> {
+    let mut c = prefix.to_vec();
+    if let Some(op) = attempt {
+        emit_xattempt(&mut c, op);
+    }
+    match next {
+        Some((scheme, to)) => {
+            emit_xcall(&mut c, scheme, to);
+            c.push(0x15); // ISZERO: 1 iff the call succeeded
+            push1(&mut c, 2);
+            c.push(0x02);
+            push1(&mut c, 1);
+            c.push(0x01);
+            push1(&mut c, 0);
+            c.push(0xf7); // RETURNDATALOAD (zero padded)
+            push1(&mut c, 4);
+            c.push(0x02);
+            c.push(0x01);
+        }
+        None => push1(&mut c, 1),
+    }
+    push1(&mut c, 0);
+    c.push(0x52);
+    push1(&mut c, 0x20);
+    push1(&mut c, 0);
+    c.push(0xf3);
+    c
+}
+
+/// benign prefix made of opcodes that are valid in EOF code
+fn gen_xprefix(rng: &mut Rng) -> Vec<u8> {
+    let mut c = vec![];
+    for _ in 0..rng.below(6) {
+        let addr = *rng.pick(&[0xA1u8, 0xA2, 0xA3, 0xA4, 0xB0, 0xB1, 0xE0, 0x99, 0x04, 0x03]);
+        match rng.below(8) {
+            0 => {
+                push1(&mut c, rng.below(4) as u8);
+                c.extend([0x54, 0x50]);
+            }
+            1 => {
+                push1(&mut c, addr);
+                c.extend([0x31, 0x50]);
+            }
+            2 => {
+                push1(&mut c, rng.below(3) as u8);
+                c.extend([0x40, 0x50]);
+            }
+            3 => {
+                push1(&mut c, rng.below(3) as u8);
+                c.extend([0x5c, 0x50]);
+            }
+            4 => c.extend([0x47, 0x50]),
+            5 => {
+                push1(&mut c, rng.below(200) as u8);
+                push1(&mut c, 0xa0);
+                c.push(0x52);
+            }
+            6 => c.extend([0x30, 0x50, 0x33, 0x50, 0x34, 0x50]),
+            _ => {
+                push1(&mut c, 4);
+                push1(&mut c, 0x80);
+                c.extend([0x20, 0x50]);
+            }
+        }
+    }
+    c
+}
+
+/// `static etx <spec 19|255> <entry xstatic|xcall> <schemes csv | -> <lvl> <op> <prefixes>`: the EOF counterpart of
+/// `tx` (EXTCALL / EXTDELEGATECALL / EXTSTATICCALL between EOF containers, EOFCREATE and EXTCALL with value as
+/// attempts)
+pub fn exec_etx(t: &[&str]) -> String {
+    if t.len() != 6 {
+        return "bad-op".into();
+    }
+    let Some(spec) = parse_spec(t[0]) else { return "bad-op".into() };
+    if (spec as u8) < SpecId::OSAKA as u8 {
+        return "bad-op".into();
+    }
+    let entry = t[1];
+    if entry != "xstatic" && entry != "xcall" {
+        return "bad-op".into();
+    }
+    let schemes: Vec<&str> = if t[2] == "-" { vec![] } else { t[2].split(',').collect() };
+    if schemes.len() > 3 || schemes.iter().any(|s| !XSCHEMES.contains(s)) {
+        return "bad-op".into();
+    }
+    let k = schemes.len() + 1;
+    let Ok(lvl) = t[3].parse::<usize>() else { return "bad-op".into() };
+    let op = t[4];
+    if lvl > k || !XOPS.contains(&op) || (lvl == 0) != (op == "none") {
+        return "bad-op".into();
+    }
+    let Some(prefixes) = t[5].split('/').map(unhex).collect::<Option<Vec<Vec<u8>>>>() else { return "bad-op".into() };
+    if prefixes.len() != k + 1 {
+        return "bad-op".into();
+    }
+    let op = op.to_string();
+    let entry = entry.to_string();
+    let schemes: Vec<String> = schemes.iter().map(|s| s.to_string()).collect();
+    guarded(move || {
+        let mut codes = vec![];
+        for i in 0..=k {
+            let addr = if i == 0 { a_entry() } else { a_level(i) };
+            let next = if i == 0 {
+                Some((entry.as_str(), 0xA1u8))
+            } else if i < k {
+                Some((schemes[i - 1].as_str(), 0xA1 + i as u8))
+            } else {
+                None
+            };
+            let attempt = if i == lvl && i > 0 { Some(op.as_str()) } else { None };
+            codes.push((addr, eof_account(xlevel_code(&prefixes[i], attempt, next))));
+        }
+        run_world(spec, codes)
+    })
+}
+
+fn gen_etx(rng: &mut Rng, n: usize, out: &mut Vec<String>) {
+    let line = |rng: &mut Rng, spec: u8, entry: &str, schemes: &[&str], lvl: usize, op: &str| {
+        let k = schemes.len() + 1;
+        let pre: Vec<String> = (0..=k).map(|_| hexs(&gen_xprefix(rng))).collect();
+        format!(
+            "static etx {} {} {} {} {} {}",
+            spec,
+            entry,
+            if schemes.is_empty() { "-".to_string() } else { schemes.join(",") },
+            lvl,
+            op,
+            pre.join("/")
+        )
+    };
+    let mut i = 0u8;
+    for op in XOPS.iter().skip(1) {
+        for entry in ["xstatic", "xcall"] {
+            i = i.wrapping_add(1);
+            out.push(line(rng, if i % 2 == 0 { 19 } else { 255 }, entry, &[], 1, op));
+            for sch in XSCHEMES {
+                i = i.wrapping_add(1);
+                out.push(line(rng, if i % 2 == 0 { 19 } else { 255 }, entry, &[sch], 2, op));
+            }
+        }
+    }
+    for _ in 0..n {
+        let spec = if rng.chance(3, 4) { 19 } else { 255 };
+        let entry = if rng.chance(3, 4) { "xstatic" } else { "xcall" };
+        let k = rng.range(1, 4) as usize;
+        let schemes: Vec<&str> = (1..k).map(|_| *rng.pick(&XSCHEMES)).collect();
+        let (lvl, op) = if rng.chance(1, 12) { (0, "none") } else { (rng.range(1, k as u64) as usize, *rng.pick(&XOPS[1..])) };
+        out.push(line(rng, spec, entry, &schemes, lvl, op));
+    }
+    out.push("static etx 18 xstatic - 1 sstore -/-".into());
+    out.push("static etx 19 static - 1 sstore -/-".into());
 }
 
 fn hexs(b: &[u8]) -> String {
@@ -957,6 +1194,7 @@ pub fn exec_line(line: &str) -> String {
     match t[1] {
         "instr" => exec_instr(&t[2..]),
         "tx" => exec_tx(&t[2..]),
+        "etx" => exec_etx(&t[2..]),
         _ => "bad-op".into(),
     }
 }
@@ -966,6 +1204,7 @@ pub fn gen(seed: u64, n: usize) -> Vec<String> {
     let mut v = vec![];
     gen_instr(&mut rng, n * 4, &mut v);
     gen_tx(&mut rng, n, &mut v);
+    gen_etx(&mut rng, n / 3, &mut v);
     v
 }
 
@@ -977,11 +1216,12 @@ pub fn run(seed: u64, n: usize, replay: Option<Vec<String>>, out: &mut Out) {
         if t.len() > 4 && t[1] == "instr" {
             out.count(&format!("instr:op{}", t[4]));
             out.count(&format!("instr:reply:{}", r.split(' ').next().unwrap_or("?")));
-        } else if t.len() > 6 && t[1] == "tx" {
-            out.count(&format!("tx:entry:{}", t[3]));
-            out.count(&format!("tx:op:{}", t[6]));
-            out.count(&format!("tx:depth:{}", if t[4] == "-" { 1 } else { t[4].split(',').count() + 1 }));
-            out.count(&format!("tx:static-frames:{}", r.matches(":1:").count()));
+        } else if t.len() > 6 && (t[1] == "tx" || t[1] == "etx") {
+            let tx = t[1];
+            out.count(&format!("{tx}:entry:{}", t[3]));
+            out.count(&format!("{tx}:op:{}", t[6]));
+            out.count(&format!("{tx}:depth:{}", if t[4] == "-" { 1 } else { t[4].split(',').count() + 1 }));
+            out.count(&format!("{tx}:static-frames:{}", r.matches(":1:").count()));
             if r.contains(":D") {
                 out.count("tx:STATIC-FRAME-CHANGED-WORLD");
             }
